@@ -288,7 +288,7 @@ func TestVerif_C02(t *testing.T) {
 	p := vk.Env()
 	stdout := os.Stdout
 	c02Quiet()
-	res := vk.NewResult("every program of layers L1 (13 binary + 2 unary operators x ordered pairs of 16 value shapes, as literals, through variables, and request-derived through JSON body / query string / path parameters), L2 (all operator pairs a op1 b op2 c and unary/binary mixes over 7 operand triples), L3 (statement lists of length <= 2 (thorough 3) over leaf and compound statement templates on three variables, with and without a final return), L4 (every non-excluded name of both engines' built-in tables x argument vectors of arity 0..2 (thorough 3) over 16 shapes, call and method form), L5/L6 (user functions with defaults x call arities, callbacks, match patterns x shapes, scoping, async/await, validation, declared return and input types; hand-written corner programs), L7 (18 name-binding constructs - loop key/value variable over array, object, request data, empty, nested, twice; pattern variable with and without guard; `$` in if/else/while/switch/for body, at route level, in an async block; reassignment - x 13 names - the request variables input/query/headers/ws/auth, path parameter, declared query parameter, two route variables, constant, function, built-in function name, fresh name - x read after the construct or not, on a request with and one without body/query) and L8 (aliasing histories: every sequence of <= 3 (thorough 4) steps D = S + [k] | D = S, and of <= 2 (thorough 3) steps over the full alphabet adding D = [k] + S, D = S + S2 and for v in S { D = D + [v] }, over three array variables up to the s/t mirror image, on a base array of length 0..4 from the JSON body and of length 3 (thorough 0..4) as a literal and from split(); all three variables are returned) is parsed by the real parser; setupRoutes itself decides whether the module is served compiled, interpreted (automatic fallback: then both modes run the interpreter and only determinism is checked) or refused; a module served compiled is run (a) at engine level: CompileRoute(OptBasic)+vm.Execute with the compiled handler's bindings vs interpreter.ExecuteRoute (routes with a declared input type at HTTP level only), and (b) at HTTP level: setupRoutes+createHandler in compiled and in --interpret mode under httptest, including the request matrix method x body x Content-Type x query string x path parameter x header for 15 request-reading programs and the body grammar {none, white space, BOM} x 7 first values x 10 trailers (white space, a second JSON value with and without separator, ; , } ] text NUL) x Content-Type {none, json} x 5 methods for 4 body-reading programs (one with a declared input type), plus bodies padded with white space so that their last byte is the last byte within / the first byte past the handlers' 10 MiB limit; an evaluation is one (level, program, request) whose two outcomes are compared; it is non-trivial unless both engines fail; distinct by (level, source, request)")
+	res := vk.NewResult("every program of layers L1 (13 binary + 2 unary operators x ordered pairs of 18 value shapes, as literals, through variables, and request-derived through JSON body / query string / path parameters), L2 (all operator pairs a op1 b op2 c and unary/binary mixes over 7 operand triples), L3 (statement lists of length <= 2 (thorough 3) over leaf and compound statement templates on three variables, with and without a final return), L4 (every non-excluded name of both engines' built-in tables x argument vectors of arity 0..2 (thorough 3) over 18 shapes, call and method form), L5/L6 (user functions with defaults x call arities, callbacks, match patterns x shapes, scoping, async/await, validation, declared return and input types; hand-written corner programs), L7 (18 name-binding constructs - loop key/value variable over array, object, request data, empty, nested, twice; pattern variable with and without guard; `$` in if/else/while/switch/for body, at route level, in an async block; reassignment - x 13 names - the request variables input/query/headers/ws/auth, path parameter, declared query parameter, two route variables, constant, function, built-in function name, fresh name - x read after the construct or not, on a request with and one without body/query) and L8 (aliasing histories: every sequence of <= 3 (thorough 4) steps D = S + [k] | D = S, and of <= 2 (thorough 3) steps over the full alphabet adding D = [k] + S, D = S + S2 and for v in S { D = D + [v] }, over three array variables up to the s/t mirror image, on a base array of length 0..4 from the JSON body and of length 3 (thorough 0..4) as a literal and from split(); all three variables are returned) is parsed by the real parser; setupRoutes itself decides whether the module is served compiled, interpreted (automatic fallback: then both modes run the interpreter and only determinism is checked) or refused; a module served compiled is run (a) at engine level: CompileRoute(OptBasic)+vm.Execute with the compiled handler's bindings vs interpreter.ExecuteRoute (routes with a declared input type at HTTP level only), and (b) at HTTP level: setupRoutes+createHandler in compiled and in --interpret mode under httptest, including the request matrix method x body x Content-Type x query string x path parameter x header for 15 request-reading programs and the body grammar {none, white space, BOM} x 7 first values x 10 trailers (white space, a second JSON value with and without separator, ; , } ] text NUL) x Content-Type {none, json} x 5 methods for 4 body-reading programs (one with a declared input type), plus bodies padded with white space so that their last byte is the last byte within / the first byte past the handlers' 10 MiB limit; an evaluation is one (level, program, request) whose two outcomes are compared; it is non-trivial unless both engines fail; distinct by (level, source, request)")
 	all, vmSet, interpSet, excluded, err := c02Builtins()
 	if err != nil {
 		t.Fatal(err)
